@@ -177,8 +177,36 @@ func (r *MRunner) Do(s Step) (res MRes) {
 		for i := range r.Slots {
 			r.Slots[i] = nil
 		}
+	case "arch_archive":
+		res.DontCare = true
+		for _, mb := range s.Members {
+			if m.Get(mb.Path) == nil && m.Get(parentOf(mb.Path)) != nil {
+				if mb.Kind == "dir" {
+					m.Mkdir(mb.Path, mb.Perm)
+				} else if mb.Kind == "file" {
+					if h, e := m.Open(mb.Path, os.O_CREATE|os.O_WRONLY, mb.Perm); e == "" {
+						h.Write(Bytes(mb.Size, mb.Dist, mb.Seed))
+					}
+				}
+			}
+		}
+	case "arch_update":
+		res.DontCare = true
+		for _, mb := range s.Members {
+			if n := m.Get(mb.Path); n != nil && n.Kind == "file" && mb.Kind == "file" && s.Replace {
+				n.Content = Bytes(mb.Size, mb.Dist, mb.Seed)
+			}
+		}
+	case "arch_delete":
+		res.DontCare = true
+		m.RemoveAll(s.Path)
+	case "arch_move":
+		res.DontCare = true
+		m.Rename(s.Path, s.Path2)
 	default:
 		res.DontCare = true
 	}
 	return
 }
+
+func parentOf(p string) string { return path.Dir(model.Clean(p)) }
